@@ -144,9 +144,19 @@ def case_map(m, mc):
 def sections_equal(got, exp, mnemonic_case="preserve", skip=(("Well", "STRT"), ("Well", "STOP"), ("Well", "STEP")), ignore_unit_of=()):
     """list of (name, condition) obligations: got == exp section by section, item by item"""
     obl = []
-    obl.append(("same-section-keys", sorted(k for k in got if isinstance(k, str)) == sorted(exp.keys()) and len(got) == len(exp)))
-    for name, items in exp.items():
-        g = got.get(name)
+
+    def keytext(k):
+        return k.s if hasattr(k, "s") and not isinstance(k, str) else k
+
+    gk, ek = [keytext(k) for k in got], [keytext(k) for k in exp]
+    if all(isinstance(k, str) for k in gk + ek):
+        obl.append(("same-section-keys", sorted(gk) == sorted(ek)))
+        pairs = [(name, got.get(name), items) for name, items in exp.items()]
+    else:
+        # symbolic section titles (a written item line that reads back as a title): compare in file order
+        obl.append(("same-section-keys", z.And([len(gk) == len(ek)] + [text_equal(a, b) for a, b in zip(gk, ek)])))
+        pairs = [(str(keytext(ke)) if isinstance(keytext(ke), str) else "symtitle", gv, ev) for (ke, ev), (kg, gv) in zip(exp.items(), got.items())] if len(gk) == len(ek) else []
+    for name, g, items in pairs:
         if isinstance(items, (str, SymStr)):
             obl.append(("section-%s-text" % name, text_equal(g, items)))
             continue
